@@ -72,6 +72,9 @@ type rawRun struct {
 	StackOK bool
 }
 
+// rawMaxAllocs is the allocation budget of runRaw's VMs (workers are single-threaded).
+var rawMaxAllocs int64 = 3_000_000
+
 // runRaw runs bytecode in a fresh VM with a copy of the globals.
 func runRaw(rc *rawCompiled, bc *tengo.Bytecode, budget int64, userProbe func(*tengo.VM)) rawRun {
 	globals := make([]tengo.Object, len(rc.Globals))
@@ -85,7 +88,7 @@ func runRaw(rc *rawCompiled, bc *tengo.Bytecode, budget int64, userProbe func(*t
 	installProbe(ps)
 	var vm *tengo.VM
 	err := safely(func() error {
-		vm = tengo.NewVM(bc, globals, 3_000_000)
+		vm = tengo.NewVM(bc, globals, rawMaxAllocs)
 		return vm.Run()
 	})
 	removeProbe()
